@@ -175,6 +175,7 @@ func doCheck(id, tier string) int {
 	var lines []string
 	var infraErrs []string
 	knownSeen := map[string]bool{}
+	var capNotes []string
 	for _, a := range aggs {
 		infraErrs = append(infraErrs, a.out.infraErrs...)
 		classes := map[classKey][]found{}
@@ -198,8 +199,19 @@ func doCheck(id, tier string) int {
 				}
 				continue
 			}
-			violations += len(fs)
 			f := fs[0]
+			// An out-of-memory abort under the workers' address-space cap is evidence only if the
+			// run does it on its own: in a long-lived worker the garbage of earlier (legitimate,
+			// within-limit) big decodes can add up to the cap. Re-run it alone in a fresh process.
+			if k.kind == "abort" && strings.Contains(k.site, "out of memory") {
+				tc := *a.cfg
+				tc.trace = true
+				if o := runOnce(&tc, f.Idx, "", 300*time.Second); !hasClass(o, k) {
+					capNotes = append(capNotes, fmt.Sprintf("%s run %d: out-of-memory under the cap did not recur when the run was executed alone (accumulated garbage of earlier within-limit decodes): not counted", a.run.label, f.Idx))
+					continue
+				}
+			}
+			violations += len(fs)
 			reported++
 			if reported > 6 {
 				lines = append(lines, fmt.Sprintf("  (also) kind=%s site=%s runs_affected=%d first_run=%d :: %s", k.kind, k.site, len(fs), f.Idx, f.V.Detail))
@@ -322,6 +334,7 @@ func doCheck(id, tier string) int {
 			"stubs":                 spec.stubs,
 			"build_s":               round1(b.buildSecs),
 			"infrastructure_errors": infraErrs,
+			"address_space_cap_notes": capNotes,
 		},
 		"assumptions": spec.assumptions,
 		"wall_s":      round1(wall),
